@@ -25,6 +25,11 @@ Subset (everything else raises Untranslatable):
     other functions translated in the same file, and declared externals (become function parameters);
   * non-integral float literals and module-level constants become explicit parameters (their current values are
     recorded in the evidence), `self.x` attributes become parameters as declared.
+  * `dialect='np'` (harness/translate_np.py, read its docstring): whole-array numpy expressions on 'arr' values
+    (element-wise arithmetic with broadcasting scalars, `a.min()`, `sum`/`np.sum`, `np.zeros`, `a[...] = e`), procedures
+    called for their effect on one argument (`result=`), loops over declared object lists whose method calls become
+    function parameters (`objlists=`, `objects=`), one component of a returned tuple (`returns_index=`), dead-statement
+    elimination with respect to that result (`slice=True`).
 The translator is part of the trusted base; it is validated on every run by the tie theorems (the regenerated text must be
 *provably equal* to a model that the correspondence check runs against the real code on the same inputs)."""
 import ast
@@ -77,6 +82,11 @@ class Fn:
         self.nat_externals = dict(spec.get('nat_externals', {}))   # python text of a call -> nat parameter name
         self.index_dims = dict(spec.get('index_dims', {}))         # own nat parameter -> dimension (for callers passing -1)
         self.raise_value = spec.get('raise_value')
+        self.s_externals = dict(spec.get('s_externals', {}))       # whole python text of a call -> scalar parameter name
+        self.arr_externals = dict(spec.get('arr_externals', {}))   # 'np.logspace' -> (leanname, [arg kinds], index of the length arg)
+        self.arr_on = spec.get('dialect') == 'arr'                 # the idioms of harness/translate_arr.py are enabled
+        self.state = list(spec.get('state', ()))         # attributes ('self.x', declared in attrs) the method assigns: they
+        #                                                  are carried like locals and their final values are the result
         self.extra_params = []                           # (leanname, leantype) in order of first use
         self.literals = set()
         self.float_consts = {}
@@ -123,9 +133,12 @@ class Fn:
 
     def lean_ty(self, kind):
         return {'s': 'α', 'elem': 'α', 'nat': 'Nat', 'arr': 'Nat → α', 'arr2': 'Nat → Nat → α',
-                'natpair': 'Nat × Nat', 'bool': 'Bool'}[kind]
+                'natpair': 'Nat × Nat', 'bool': 'Bool', 'pair': 'α × α', 'opt': 'Option α', 'optarr': 'Option (Nat → α)',
+                'rows': 'List (Nat → α)', 'slist': 'List α', 'optrows': 'Option (List (Nat → α))'}[kind]
 
     def var(self, name):
+        if name in self.attrs:                            # a state attribute ('self.x') carried like a local variable
+            return self.attrs[name][0]
         return lname(self.rename.get(name, name))
 
     # ------------------------------------------------------------------ expressions
@@ -184,7 +197,8 @@ class Fn:
         if isinstance(node, ast.Attribute):
             t = ast.unparse(node)
             if t in self.attrs and self.attrs[t][1] == 'nat':
-                self.add_param(self.attrs[t][0], 'Nat')
+                if t not in env:
+                    self.add_param(self.attrs[t][0], 'Nat')
                 return self.attrs[t][0]
         if isinstance(node, ast.Subscript):
             t = ast.unparse(node)
@@ -202,6 +216,9 @@ class Fn:
 
     def expr(self, node, env):
         """expression of the carrier α (or a Bool for tests, via `cond`)"""
+        ext = self.expr_ext(node, env)                    # array / method idioms (translate_arr.py); None: not one of them
+        if ext is not None:
+            return ext
         if isinstance(node, ast.Constant):
             v = node.value
             if isinstance(v, bool) or not isinstance(v, (int, float)):
@@ -226,7 +243,9 @@ class Fn:
             t = ast.unparse(node)
             if t in self.attrs:
                 nm, k = self.attrs[t]
-                self.add_param(nm, self.lean_ty(k))
+                if t not in env:                          # (a state attribute already assigned here is a local)
+                    self.add_param(nm, self.lean_ty(k))
+                k = env.get(t, k)
                 if k not in ('s', 'elem'):
                     self.fail(node, 'attribute is not a scalar')
                 return nm
@@ -265,6 +284,19 @@ class Fn:
             self.expr(node.args[0], env)                  # must itself be translatable
             self.literals.add(0)
             return '(0 : α)'
+        if isinstance(node, ast.Call) and any(isinstance(a, ast.Starred) for a in node.args):
+            node = self.unstar(node, env)                 # f(*bounds), bounds a declared pair: f(bounds[0], bounds[1])
+        if isinstance(node, ast.Call) and node.keywords and ast.unparse(node.func) in self.externals \
+                and len(self.externals[ast.unparse(node.func)]) == 3:
+            # external called with keywords: externals[text] = (leanname, arity, (keyword names in argument order))
+            nm, arity, kwnames = self.externals[ast.unparse(node.func)]
+            kws = {k.arg: k.value for k in node.keywords}
+            npos = arity - len(kwnames)
+            if len(node.args) != npos or None in kws or set(kws) != set(kwnames):
+                self.fail(node, 'external call does not match its declared positional/keyword arguments')
+            self.add_param(nm, ' → '.join(['α'] * (arity + 1)))
+            return '(%s %s)' % (nm, ' '.join([self.expr(a, env) for a in node.args]
+                                             + [self.expr(kws[k], env) for k in kwnames]))
         if isinstance(node, ast.Call):
             short, full = self.call_name(node)
             if node.keywords:
@@ -281,6 +313,12 @@ class Fn:
                 a = self.expr(node.args[0], env)
                 self.literals.add(0)
                 return '(let a__ := %s; if a__ < (0 : α) then (-a__) else a__)' % a
+            if full in ('pow', 'math.pow') and len(node.args) == 2 and isinstance(node.args[1], ast.Constant) \
+                    and isinstance(node.args[1].value, (int, float)) and not isinstance(node.args[1].value, bool) \
+                    and float(node.args[1].value) == int(node.args[1].value) and 2 <= int(node.args[1].value) <= 6:
+                # the builtin pow(x, k) with a literal k: the same repeated product as `x**k`
+                return self.expr(ast.copy_location(ast.BinOp(left=node.args[0], op=ast.Pow(), right=node.args[1]),
+                                                   node), env)
             if short in ('maximum', 'max') and len(node.args) == 2:
                 a, b = (self.expr(x, env) for x in node.args)
                 return '(let a__ := %s; let b__ := %s; if a__ < b__ then b__ else a__)' % (a, b)
@@ -302,6 +340,19 @@ class Fn:
                 return '(%s %s)' % (tgt['lean'], ' '.join(args))
             self.fail(node, 'unsupported call')
         self.fail(node, 'unsupported expression')
+
+    def unstar(self, node, env):
+        args = []
+        for a in node.args:
+            if isinstance(a, ast.Starred):
+                if not (isinstance(a.value, ast.Name) and env.get(a.value.id) == 'pair'):
+                    self.fail(node, 'starred argument that is not a declared pair')
+                for i in (0, 1):
+                    args.append(ast.copy_location(ast.Subscript(value=a.value, slice=ast.Constant(value=i),
+                                                                ctx=ast.Load()), a))
+            else:
+                args.append(a)
+        return ast.copy_location(ast.Call(func=node.func, args=args, keywords=node.keywords), node)
 
     def arg(self, node, kind, env):
         if kind in ('arr', 'arr2'):
@@ -329,6 +380,11 @@ class Fn:
             self.add_param(nm, self.lean_ty(k))
         else:
             self.fail(node, 'unsupported subscript base')
+        if k == 'pair':
+            # a declared two-element sequence: two scalars name_0, name_1
+            if len(idxs) == 1 and isinstance(idxs[0], ast.Constant) and idxs[0].value in (0, 1):
+                return '%s_%d' % (nm, idxs[0].value)
+            self.fail(node, 'a pair indexed by something else than 0 or 1')
         if k == 'elem':
             # element-wise lifting: a[n] (n the element loop variable) is the element
             if all(isinstance(i, ast.Name) and env.get(i.id) == 'elemidx' for i in idxs):
@@ -354,6 +410,9 @@ class Fn:
         return self.nat(node, env)
 
     def cond(self, node, env):
+        ext = self.cond_ext(node, env)                    # float `==`, `x is None` (translate_arr.py); None: not one of them
+        if ext is not None:
+            return ext
         if isinstance(node, ast.BoolOp):
             op = ' && ' if isinstance(node.op, ast.And) else ' || '
             return '(' + op.join(self.cond(v, env) for v in node.values) + ')'
@@ -361,6 +420,18 @@ class Fn:
             return '(!%s)' % self.cond(node.operand, env)
         if isinstance(node, ast.Name) and env.get(node.id) == 'bool':
             return self.var(node.id)
+        if isinstance(node, ast.Compare) and len(node.ops) == 1 and ast.unparse(node.left) in self.enums \
+                and isinstance(node.comparators[0], (ast.Attribute, ast.Name)) \
+                and isinstance(node.ops[0], (ast.Eq, ast.NotEq, ast.Is, ast.IsNot)):
+            # an enumeration member given by name (`self._prior_mode is PriorMode.LINEAR`)
+            nm, table = self.enums[ast.unparse(node.left)]
+            v = ast.unparse(node.comparators[0])
+            if v not in table:
+                self.fail(node, 'comparison with an undeclared enumeration member')
+            if ast.unparse(node.left) not in env:
+                self.add_param(nm, 'Nat')
+            c = 'decide (%s = %d)' % (nm, table[v])
+            return c if isinstance(node.ops[0], (ast.Eq, ast.Is)) else '(!%s)' % c
         if isinstance(node, ast.Compare) and len(node.ops) == 1 and ast.unparse(node.left) in self.enums \
                 and isinstance(node.comparators[0], ast.Constant) and isinstance(node.ops[0], (ast.Eq, ast.NotEq)):
             nm, table = self.enums[ast.unparse(node.left)]
@@ -399,6 +470,11 @@ class Fn:
             if n not in out:
                 out.append(n)
         for s in stmts:
+            self.assigned_ext(s, env, add)                # `with` blocks, tuple targets (translate_arr.py)
+            if isinstance(s, (ast.Assign, ast.AugAssign)):
+                for t in (s.targets if isinstance(s, ast.Assign) else [s.target]):
+                    if isinstance(t, ast.Attribute) and ast.unparse(t) in self.state:
+                        add(ast.unparse(t))
             if isinstance(s, ast.Assign):
                 for t in s.targets:
                     if isinstance(t, ast.Name):
@@ -468,6 +544,12 @@ class Fn:
                 continue                                  # logging
             if isinstance(s, (ast.Import, ast.ImportFrom)):
                 continue
+            ext = self.stmt_ext(s, env, ind, rest, tail, inline)   # array / method idioms (translate_arr.py)
+            if ext is not None:
+                if ext[1]:
+                    return out + ext[0]
+                out += ext[0]
+                continue
             if isinstance(s, ast.Raise):
                 if self.raise_value is None or inline:
                     self.fail(s, 'raise (no total value declared for it)')
@@ -503,7 +585,18 @@ class Fn:
                     return out + ind + '(%s, %s)\n' % tuple(self.nat(e, env) for e in s.value.elts)
                 if self.spec.get('returns') == 'nat':
                     return out + ind + self.nat(s.value, env) + '\n'
+                if self.spec.get('returns') == 'pair':
+                    if not (isinstance(s.value, ast.Tuple) and len(s.value.elts) == 2):
+                        self.fail(s, 'a pair of scalars was declared as the result')
+                    return out + ind + '(%s, %s)\n' % tuple(self.expr(e, env) for e in s.value.elts)
                 return out + ind + self.expr(s.value, env) + '\n'
+            if isinstance(s, (ast.Assign, ast.AugAssign)) and self.state:
+                tg = s.targets[0] if isinstance(s, ast.Assign) and len(s.targets) == 1 else getattr(s, 'target', None)
+                if isinstance(tg, ast.Attribute) and ast.unparse(tg) in self.state:
+                    out += self.state_store(s, tg, env, ind)
+                    continue
+            if isinstance(s, ast.Return) and s.value is None and self.state and not inline:
+                return out + ind + self.state_tail(env) + '\n'
             if isinstance(s, ast.Assign):
                 if len(s.targets) != 1:
                     self.fail(s, 'multiple assignment targets')
@@ -561,6 +654,10 @@ class Fn:
                     return out + '%sif %s then\n%s%selse\n%s' % (ind, self.cond(s.test, env), body, ind, other)
                 names = [n for n in self.assigned([s], env)]
                 for n in names:
+                    if n not in env and n in self.state:
+                        self.add_param(self.attrs[n][0], self.lean_ty(self.attrs[n][1]))
+                        env[n] = self.attrs[n][1]
+                for n in names:
                     if n not in env:
                         self.fail(s, 'variable %s assigned only inside a conditional' % n)
                 pack = self.state_pack(names)
@@ -572,9 +669,49 @@ class Fn:
             self.fail(s, 'unsupported statement')
         if inline:
             return out
+        if tail is None and self.state:
+            tail = self.state_tail(env)                   # a state method falls off its end: the result is the state
         if tail is None:
             raise Untranslatable('%s: a path does not end in return' % self.spec['func'])
-        return out + ind + tail + '\n'
+        return out + ind + (tail(env) if callable(tail) else tail) + '\n'   # (callable: the value depends on the final kinds)
+
+    def state_tail(self, env):
+        for a in self.state:
+            if a not in env:                              # never assigned on this path: the old value is the new value
+                self.add_param(self.attrs[a][0], self.lean_ty(self.attrs[a][1]))
+        vs = [self.attrs[a][0] for a in self.state]
+        return vs[0] if len(vs) == 1 else '(' + ', '.join(vs) + ')'
+
+    def state_store(self, s, t, env, ind):
+        """self.x = e / self.x op= e for a declared state attribute"""
+        key = ast.unparse(t)
+        nm, k = self.attrs[key]
+        if isinstance(s, ast.AugAssign):
+            ops = {ast.Add: '+', ast.Sub: '-', ast.Mult: '*', ast.Div: '/'}
+            if type(s.op) not in ops or key in self.enums:
+                self.fail(s, 'unsupported augmented assignment')
+            if k == 'nat':
+                if key not in env:
+                    self.add_param(nm, 'Nat')
+                e = '(%s %s %s)' % (nm, ops[type(s.op)], self.nat(s.value, env))
+            else:
+                e = '(%s %s %s)' % (self.expr(t, env), ops[type(s.op)], self.expr(s.value, env))
+        elif key in self.enums:
+            table = self.enums[key][1]
+            v = s.value.value if isinstance(s.value, ast.Constant) else ast.unparse(s.value)
+            if v not in table:
+                self.fail(s, 'assignment of an undeclared enumeration member')
+            e = '(%d : Nat)' % table[v]
+        elif k == 'nat':
+            e = self.nat(s.value, env)
+        elif k == 'bool':
+            e = self.cond(s.value, env)
+        elif k in ('s', 'elem'):
+            e = self.expr(s.value, env)
+        else:
+            self.fail(s, 'unsupported kind of state attribute')
+        env[key] = k
+        return '%slet %s := %s\n' % (ind, nm, e)
 
     def ends_in_return(self, stmts):
         if not stmts:
@@ -679,6 +816,9 @@ class Fn:
             if k == 'skip':
                 continue
             env[a.arg] = k
+            if k == 'pair':                               # a two-element sequence: two scalars
+                params.append('(%s_0 : α) (%s_1 : α)' % (self.var(a.arg), self.var(a.arg)))
+                continue
             params.append('(%s : %s)' % (self.var(a.arg), self.lean_ty(k)))
         declared = [p for p in self.kinds if p not in [a.arg for a in node.args.args]]
         if declared:
@@ -687,13 +827,32 @@ class Fn:
             if n not in env:
                 env[n] = 'nat'
                 params.append('(%s : Nat)' % self.var(n))
-        body = self.block(node.body, env, '  ', None)
+        body = self.block(node.body, env, '  ', self.spec.get('fall_value'))   # fall_value: value when the body falls off its end
         self.extra_params.sort()          # canonical order: a re-ordered but equivalent source gives the same signature
         extra = ''.join(' (%s : %s)' % (n, t) for n, t in self.extra_params)
         ret = self.spec.get('returns', 's')
-        head = 'def %s %s%s : %s :=\n' % (self.spec.get('lean', self.spec['func']), ' '.join(params), extra,
-                                           self.lean_ty(ret))
+        rty = self.lean_ty(ret) if not self.state else ' × '.join(self.lean_ty(self.attrs[a][1]) for a in self.state)
+        rty = self.result_type_ext(ret, rty)              # tuple / array-state results (translate_arr.py; dialect='arr' only)
+        head ='def %s %s%s : %s :=\n' % (self.spec.get('lean', self.spec['func']), ' '.join(params), extra, rty)
         return head + body
+
+
+def fn_class(spec):
+    """the translator class of a spec: `Fn`, or for `dialect='np'` the subclass of harness/translate_np.py (whole-array
+    numpy idioms, procedures that mutate an argument, loops over declared object lists, slicing to one result)"""
+    if spec.get('dialect') == 'np':
+        from harness import translate_np
+        return translate_np.FnNp
+    if spec.get('dialect') == 'obj':                      # optional values, try/except, calls of state methods, lists
+        from harness import translate_obj
+        return translate_obj.FnObj
+    if spec.get('dialect') == 'shaped':                   # C01/C03/C19: shaped numpy expressions, stores, lists of arrays
+        from harness import translate_shaped
+        return translate_shaped.FnShaped
+    if spec.get('dialect') == 'list':                     # C05/C13/C17: numpy 1-D arrays as `List`, typed, Gen/Prelude.lean
+        from harness import translate_list
+        return translate_list.VFn
+    return Fn
 
 
 def translate_file(repo_root, specs, namespace, out_path, header=''):
@@ -709,7 +868,7 @@ def translate_file(repo_root, specs, namespace, out_path, header=''):
         try:
             src = open(path).read()
             tree = ast.parse(src)
-            fn = Fn(spec, tree, src.splitlines(keepends=True), known)
+            fn = fn_class(spec)(spec, tree, src.splitlines(keepends=True), known)
             lean = fn.translate()
             literals |= fn.literals
             doc = '/-- translated from %s:%d `%s` -/\n' % (
@@ -718,7 +877,8 @@ def translate_file(repo_root, specs, namespace, out_path, header=''):
             known[spec.get('callname', spec['func'])] = dict(lean=spec.get('lean', spec['func']),
                                                             arg_kinds=fn.arg_kinds, arg_names=fn.arg_names,
                                                             index_dims=fn.index_dims,
-                                                            extra_params=list(fn.extra_params))
+                                                            extra_params=list(fn.extra_params),
+                                                            **getattr(fn, 'known_extra', {}))
             funcs.append(dict(module=spec['module'], func=spec['func'], line=fn.lineno,
                               sha=hashlib.sha256(fn.src.encode()).hexdigest()[:16],
                               extra_params=[n for n, _ in fn.extra_params], float_consts=fn.float_consts))
@@ -728,9 +888,10 @@ def translate_file(repo_root, specs, namespace, out_path, header=''):
             texts.append('-- NOT TRANSLATABLE: %s\n' % str(e).replace('\n', ' ')[:300])
     lits = ' '.join('[OfNat α %d]' % n for n in sorted(literals))
     body = ('/-\n  GENERATED by harness/translate.py from the source text of the taurex package under check — do not edit.\n'
-            '  %s\n-/\nimport TaurexModel.Num\nset_option linter.unusedVariables false\n\nnamespace %s\n\nsection\nvariable {α : Type} [Add α] [Sub α] [Mul α] [Div α] '
+            '  %s\n-/\nimport TaurexModel.Num\n%sset_option linter.unusedVariables false\n\nnamespace %s\n\nsection\nvariable {α : Type} [Add α] [Sub α] [Mul α] [Div α] '
             '[Neg α] [LT α] [LE α]\n  [DecidableLT α] [DecidableLE α] [Taurex.Transc α] %s\nopen Taurex\n\n'
-            % (header, namespace, lits))
+            % (header, 'import TaurexModel.Gen.Prelude\n' if any(sp.get('dialect') == 'list' for sp in specs) else '',
+               namespace, lits))
     body += '\n'.join(texts)
     body += '\nend\n\nend %s\n' % namespace
     old = open(out_path).read() if os.path.exists(out_path) else None
@@ -741,3 +902,7 @@ def translate_file(repo_root, specs, namespace, out_path, header=''):
         open(tmp, 'w').write(body)
         os.replace(tmp, out_path)
     return dict(ok=not errors, changed=changed, errors=errors, functions=funcs, path=out_path)
+
+
+from harness import translate_arr                        # noqa: E402  (array / method idioms: the `*_ext` hooks of Fn)
+translate_arr.install(Fn)
